@@ -3,7 +3,7 @@ import Hv.Generated.FactsC30
 
 namespace Hv.C30
 
-theorem verdict : (classify Generated.factsC30).Sound (Holds (cfgOf Generated.factsC30)) (Partial (cfgOf Generated.factsC30)) :=
+theorem verdict : (classify Generated.factsC30).Sound (Full (kcOf Generated.factsC30) (cfgOf Generated.factsC30)) (Partial (cfgOf Generated.factsC30)) :=
   classify_sound _
 
 #eval IO.println (verdictLine "C30" (classify Generated.factsC30))
@@ -21,5 +21,7 @@ theorem verdict : (classify Generated.factsC30).Sound (Holds (cfgOf Generated.fa
 #print axioms preepoch_patch_witness
 #print axioms stale_index_witness
 #print axioms reload_exp
+#print axioms fail_keeps_expiry
+#print axioms not_fail_keeps_expiry
 
 end Hv.C30
